@@ -55,7 +55,7 @@ def instances(tier, seed):
     out.append(dict(label='set_linked_disc n=4,2,4 src=0', kind='set_linked_disc', ns=[4, 2, 4], src=0))
     out.append(dict(label='set_linked_mixed', kind='set_linked_mixed'))
     out.append(dict(label='set_other_untouched', kind='set_other'))
-    for name in ('dv', 'dv_single', 'dv_linked', 'dv_or_existence'):
+    for name in ('dv', 'dv_single', 'dv_linked', 'dv_or_existence', 'dv_or_direct', 'dv_same_name', 'dv_linked3_cond'):
         out.append(dict(label=f'decode_dv {name}', kind='decode_dv', template=name))
     widths = [(16, 30), (32, 30), (64, 30)] if tier == 'quick' else [(16, 60), (32, 120), (64, 300)]
     for bits, to in widths:
@@ -636,7 +636,9 @@ def _run_decode_dv(inst, res):
                 for i, d in enumerate(gp.des_vars):
                     if isinstance(d.node, DesignVariableNode):
                         out.append((i, d.node in nodes, inst_g.des_var_value(d.node), x_imp[i], bool(act[i])))
-                return out, list(x_imp) == list(x_imp2) and list(act) == list(act2), len(inst_g.des_var_values)
+                # every design-variable node of the template (also linked followers, which have no entry of their own)
+                allv = [(j, n_ in nodes, inst_g.des_var_value(n_)) for j, n_ in enumerate(info.get('dv', []))]
+                return out, list(x_imp) == list(x_imp2) and list(act) == list(act2), allv
             ex = explore(run, pre=pre, max_paths=3000, time_cap_s=120, fanout_cap=40)
             absorb(res, ex)
             if not ex.complete:
@@ -658,8 +660,20 @@ def _run_decode_dv(inst, res):
                 if p.kind == 'exc':
                     _viol(res, 'decode_dv', dict(kind='decode_raises', template=name), dict(template=name), inputs, repr(p.exc), 'instance')
                     continue
-                out, same_nc, n_vals = p.value
+                out, same_nc, allv = p.value
                 problems = []
+                dv_nodes0 = info0.get('dv', [])
+                specs = [('d', len(n_.options)) if n_.options is not None else ('c', float(n_.bounds[0]), float(n_.bounds[1])) for n_ in dv_nodes0]
+                for j, exists, stored in allv:
+                    if exists and stored is None:
+                        problems.append(f'{dv_nodes0[j].name}: node exists but has no value on the instance')
+                    elif exists and not _in_domain(specs[j], stored):
+                        problems.append(f'{dv_nodes0[j].name}: stored value {stored} outside the domain')
+                for grp in info0.get('linked', []):
+                    idx = [dv_nodes0.index(n_) for n_ in grp]
+                    present = [j for j in idx if allv[j][1] and allv[j][2] is not None]
+                    if len(present) >= 2 and not _native_linked_ok([specs[j] for j in present], [allv[j][2] for j in present], 0):
+                        problems.append(f'linked group {[dv_nodes0[j].name for j in present]}: values {[allv[j][2] for j in present]} are not the same index / relative position')
                 if not same_nc:
                     problems.append('create=False reports another vector/activeness than create=True')
                 for i, exists, stored, reported, active in out:
